@@ -312,7 +312,8 @@ def c14_replay_eval(cfg):
 # ===========================================================================
 # C16
 # ===========================================================================
-C16_BOUNDS = {"quick": dict(NT=40, NS=24), "thorough": dict(NT=70, NS=48)}
+C16_BOUNDS = {"quick": dict(NT=40, NS=24, NBIG=70000),
+              "thorough": dict(NT=70, NS=48, NBIG=300000)}
 
 
 def norm_action(a):
@@ -383,6 +384,59 @@ def check_c16(prop, tier):
                                   f"sub-problem ({ni} steps, {si} units): "
                                   f"tabulated planner {t}, memoised planner "
                                   f"{m}", rp)
+    # ---- the one-unit column for large n (O(n) table): magnitudes far beyond
+    #      the small tables, e.g. costs above 2**31
+    nb = B["NBIG"]
+    try:
+        tab = mixed.mixed_steps_tabulation(nb, 1)
+    except Exception as e:  # noqa: BLE001
+        tab = None
+        res.violation({"cls": "tabulation", "code": "raises_large_n"},
+                      f"mixed_steps_tabulation({nb}, 1) raised "
+                      f"{type(e).__name__}: {e}",
+                      common.write_replay(prop, "tabulation_large_n", {
+                          "property": prop, "kind": "c16_table", "n": nb,
+                          "s": 1, "ni": nb, "si": 1}))
+    if tab is not None:
+        for ni in range(1, nb + 1):
+            res.add(evaluations=1, states=1, transitions=1)
+            t = tuple(int(x) for x in tab[ni, 1])
+            m = tuple(int(x) for x in mixed.mixed_step_memoization(ni, 1))
+            if t != m:
+                res.violation({"cls": "planner", "code": "table_entry"},
+                              f"sub-problem ({ni} steps, 1 unit): tabulated "
+                              f"planner {t}, memoised planner {m}",
+                              common.write_replay(prop, "table_entry", {
+                                  "property": prop, "kind": "c16_table",
+                                  "n": nb, "s": 1, "ni": ni, "si": 1}))
+                break
+        # and the first actions of the streams on both paths at that size
+        big = D.Config("Mixed", (1, "DISK"), nb)
+        heads = []
+        for forced in (False, True):
+            saved = mixed.numba
+            if forced:
+                mixed.numba = object()
+            try:
+                sc = D.build(big)
+                acts = []
+                try:
+                    for _ in range(12):
+                        acts.append(norm_action(next(sc)))
+                except Exception as e:  # noqa: BLE001
+                    acts.append(("RAISED", type(e).__name__))
+            finally:
+                mixed.numba = saved
+            heads.append(acts)
+        res.add(evaluations=1, traces_validated_against_impl=2)
+        if heads[0] != heads[1]:
+            res.violation({"cls": "Mixed", "code": "stream_differs"},
+                          f"{big!r}: first actions differ: memoised "
+                          f"{heads[0][:3]}, tabulated {heads[1][:3]}",
+                          common.write_replay(prop, "Mixed_stream_differs", {
+                              "property": prop, "kind": "c16_stream",
+                              "config": big.as_json()}))
+
     # ---- streams on both code paths
     cfgs = []
     for n in range(1, B["NS"] + 1):
@@ -623,6 +677,26 @@ def replay(prop, payload):
                            if p["label"].get(d) == "DISK")
             nram = sum(1 for v in p["label"].values() if v == "RAM")
             bad = disk_acc != sum(sorted(a)[:npos - kk]) or nram > cfg.params[0]
+    elif k == "c16_stream" and cfg.N > 2000:
+        mixed = common.repo_mod("mixed")
+        heads = []
+        for forced in (False, True):
+            saved = mixed.numba
+            if forced:
+                mixed.numba = object()
+            try:
+                acts = []
+                try:
+                    sc = D.build(cfg)
+                    for _ in range(12):
+                        acts.append(norm_action(next(sc)))
+                except Exception as e:  # noqa: BLE001
+                    acts.append(("RAISED", type(e).__name__))
+            finally:
+                mixed.numba = saved
+            heads.append(acts)
+        bad = heads[0] != heads[1]
+        print(cfg, heads[0][:3], heads[1][:3])
     elif k == "c16_stream":
         r0 = mixed_stream(cfg, False)
         r1 = mixed_stream(cfg, True)
@@ -631,7 +705,12 @@ def replay(prop, payload):
         print(cfg, "differs" if bad else "equal")
     elif k == "c16_table":
         mixed = common.repo_mod("mixed")
-        tab = mixed.mixed_steps_tabulation(payload["n"], payload["s"])
+        try:
+            tab = mixed.mixed_steps_tabulation(payload["n"], payload["s"])
+        except Exception as e:  # noqa: BLE001
+            print(f"mixed_steps_tabulation raised {e!r}")
+            print(f"VIOLATION property={prop} replay=(replayed)")
+            return 1
         t = tuple(int(x) for x in tab[payload["ni"], payload["si"]])
         try:
             m = tuple(int(x) for x in
